@@ -55,6 +55,22 @@ func rowNegated(r Row, atoms map[string]bool) bool {
 	return mentioned > 0
 }
 
+// rowContradicted: every alternative the code tests is false on this path (a disjunction with an alternative still
+// undetermined is not contradicted).
+func rowContradicted(r Row, atoms map[string]bool, used map[string]bool) bool {
+	n := 0
+	for _, a := range r.Alts {
+		if !used[a] {
+			continue
+		}
+		if !atoms[negAtom(a)] {
+			return false
+		}
+		n++
+	}
+	return n > 0
+}
+
 func hasLoopBack(t *Terminal) bool {
 	for _, e := range t.St.events {
 		if e.Kind == EvLoopBack {
@@ -136,6 +152,18 @@ func guardInventory(c *Ctx, rule string, res *Result, rows []Row, wrap func(Val)
 		}
 	}
 	// typed errors
+	// alternatives the code actually tests somewhere (the others are spellings the code does not use)
+	used := map[string]bool{}
+	for _, t := range res.Terms {
+		atoms := t.atoms()
+		for _, r := range rows {
+			for _, a := range r.Alts {
+				if atoms[a] || atoms[negAtom(a)] {
+					used[a] = true
+				}
+			}
+		}
+	}
 	for _, r := range rows {
 		if r.NoErr || r.Err == nil {
 			continue
@@ -149,15 +177,16 @@ func guardInventory(c *Ctx, rule string, res *Result, rows []Row, wrap func(Val)
 			if !rowNegated(r, atoms) {
 				continue
 			}
-			// the negation must be what decided the return: the last non-forced fact negates an alternative
-			last := lastFact(t)
-			isLast := false
-			for _, a := range r.Alts {
-				if last == negAtom(a) {
-					isLast = true
+			// the negation must be what decided the return: this row is the only one the path contradicts (whether
+			// the checks are evaluated one at a time or all up front, a rejection that contradicts a single row is
+			// that row's rejection)
+			only := true
+			for _, r2 := range rows {
+				if r2.ID != r.ID && !r2.NoErr && r2.Err != nil && rowContradicted(r2, atoms, used) {
+					only = false
 				}
 			}
-			if !isLast {
+			if !only {
 				continue
 			}
 			n++
